@@ -24,7 +24,7 @@ EXPLANATION = (
     "row-set equality on real data; MultiIndex label round trip through str/eval."
 )
 LEVEL_RULE = "one obligation per backend validate / fold step / typestate use"
-FLOORS = {"R1": 5, "R2": 7, "R3": 2, "R4": 5, "R5": 1, "R6": 3}
+FLOORS = {"R1": 5, "R2": 7, "R3": 2, "R4": 5, "R5": 1, "R6": 3, "R7": 3}
 
 
 def _validates(ix):
@@ -330,6 +330,39 @@ def r6_labels_survive_delegation(ctx):
         raise AnalysisError(f"pandas components: expected 3 delegated validations (column, index, multi-index), found {n}")
 
 
+def r7_polars_check_output_is_one_column(ctx):
+    """polars drop_invalid_rows AND-folds the boolean column CHECK_OUTPUT_KEY of every collected error.  A core check that
+    runs over a selector (a regex column matches several columns) must hand over exactly that one column:
+    `frame.select(pl.col(c).alias(KEY))`.  `frame.rename({c: KEY})` keeps the other matched columns next to it; the fold
+    then sees a struct instead of a boolean and ignores the error - rows with nulls in a regex-matched non-nullable
+    column are kept and nothing is raised."""
+    ix = ctx.ix
+    n = 0
+    for m in ix.modules.values():
+        if not m.path.startswith("pandera/backends/polars/"):
+            continue
+        for f in m.all_functions:
+            ex = None
+            for c in calls_in(f.node, nested=True):
+                if callee_last(c) != "CoreCheckResult":
+                    continue
+                v = kw(c, "check_output")
+                if v is None or (isinstance(v, ast.Constant) and v.value is None):
+                    continue
+                ex = ex or Expander(f.node)
+                n += 1
+                renames = [x for d in ex.closure(v) for x in ast.walk(d) if isinstance(x, ast.Call) and callee_last(x) == "rename"
+                           and any("CHECK_OUTPUT_KEY" in txt(a) for a in list(x.args) + [k.value for k in x.keywords])]
+                ctx.ob("R7", f, f"{f.short}: check_output is the single column CHECK_OUTPUT_KEY", not renames,
+                       "selected / aliased as one column" if not renames else
+                       f"`{txt(renames[0])[:70]}` renames one column of a frame that holds every column matched by the selector: with a regex column the "
+                       "other matched columns stay in check_output and drop_invalid_rows ignores the error (invalid rows are returned, nothing is raised)",
+                       f.loc(renames[0]) if renames else f.loc(c))
+    ctx.stats["polars_check_outputs"] = n
+    if n < 3:
+        raise AnalysisError(f"polars backends: only {n} CoreCheckResult(check_output=...) sites found")
+
+
 def run(ctx):
     r1_precondition(ctx)
     r2_shape(ctx)
@@ -337,4 +370,5 @@ def run(ctx):
     r4_wiring(ctx)
     r5_no_rowwise_dropna_before_reshape(ctx)
     r6_labels_survive_delegation(ctx)
+    r7_polars_check_output_is_one_column(ctx)
     ctx.assume("Index.isin / DataFrame.loc / LazyFrame.filter have their documented meaning")
